@@ -68,6 +68,50 @@ Theorem C16_progress_partial : forall c s,
 Proof. exact progress_orig_partial. Qed.
 Print Assumptions C16_progress_partial.
 
+(* Conservation law of the settle step (both protocols, every enabled "send one continuation" step of the worker
+   that settles p): the head continuation leaves p's list and arrives EXACTLY ONCE in {task queue, fallback
+   goroutines}; nothing else moves.  (The Fixed protocol's fallback is per continuation: enq puts the very task
+   whose send found the queue full into s_ovf.) *)
+Theorem C16_settle_send_conserves : forall c s w p k rest s',
+  nth_error (s_ws s) w = Some (WSettle p) -> conts_of s p = k :: rest ->
+  step_fn c s (AWorker w) = Some s' ->
+  conts_of s' p = rest /\
+  (forall q, q <> p -> conts_of s' q = conts_of s q) /\
+  s_ws s' = s_ws s /\ s_st s' = s_st s /\
+  (forall t, cnt t (s_queue s') + cnt t (s_ovf s') = cnt t (s_queue s) + cnt t (s_ovf s) + cnt t [k]).
+Proof. exact settle_send_conserves. Qed.
+Print Assumptions C16_settle_send_conserves.
+
+(* ... hence, in every reachable state: a promise whose settlement is over has no continuation left, and every
+   started, unsettled task is in exactly one of {task queue, fallback goroutine, running on a worker, continuation
+   list of a promise that is unsettled or still being drained}. *)
+Theorem C16_settled_continuations_conserved : forall c s, reachable c s ->
+  (forall p, is_done (st_of s p) = true -> ~ In (WSettle p) (s_ws s) -> conts_of s p = []) /\
+  (forall t, is_live (st_of s t) = true ->
+     cnt t (s_queue s) + cnt t (s_ovf s) + on_worker s t + cnt t (concat (s_conts s)) = 1).
+Proof. exact settled_conts_conserved. Qed.
+Print Assumptions C16_settled_continuations_conserved.
+
+(* A design that is NOT the tree's: non-blocking sends with a BATCHED fallback that hands "the remaining"
+   continuations to one goroutine starting after the one whose send failed (Model: step_fn_skip).  It loses a
+   wake-up: N = 1, Q = 1, well-formed 3-task program (mid starts a leaf and a filler, awaits both); after the run
+   task 0 was suspended once, resumed zero further times, its awaited promise 1 is settled, 0 is in no place at all,
+   no step is enabled and the main thread is still waiting. *)
+Theorem C16_skip_one_fallback_refuted : exists c sched s,
+  c_N c = 1 /\ c_Q c = 1 /\ wf c = true /\ run_skip c sched (init c) = Some s /\
+  is_live (st_of s 0) = true /\ occ s 0 = 0 /\
+  (forall p, conts_of s p = []) /\ is_done (st_of s 1) = true /\
+  nth 0 (s_parks s) 0 = 1 /\ nth 0 (s_takes s) 0 = 1 /\
+  enabled_skip c s = [] /\ quiescent c s = true /\ main_done c s = false.
+Proof. exact skip_one_witness. Qed.
+Print Assumptions C16_skip_one_fallback_refuted.
+
+Example C16_skip_schedule_fixed_nonvacuous :
+  let c := skip_cfg in
+  (exists s, run c skip_sched (init c) = Some s /\ occ s 0 = 1 /\ s_ovf s = [0]) /\
+  let s := run_first c 200 (init c) in main_done c s = true /\ all_tasks_done s = true.
+Proof. exact skip_sched_fixed_ok. Qed.
+
 Example C16_nonvacuous :
   let c := wit_cfg Fixed in
   let s := run_first c 200 (init c) in
